@@ -1,7 +1,650 @@
-//! C11 harness module (not implemented yet).
+//! C11: no peer-supplied bytes can panic a decoding or verifying entry point.
+//! Feeds byte strings (uniform, all-zero/all-one, truncated/extended, structured mutations of valid
+//! messages) to every untrusted-input entry point of the four crates under catch_unwind
+//! (the harness profile has overflow-checks = true, so arithmetic overflow panics too), and
+//! records the outcome class Val/Err/PANIC.  Lines written to out/cases.txt:
+//!     <entry> <kind> <outcome> <hex of the distinguishing input (truncated)>
+//! and out/result.txt in the mode-B format (ORACLE lines = panics = property violations).
 use crate::util::*;
+use rand::{Rng, RngCore};
+use rand_chacha::ChaCha20Rng;
+use std::collections::BTreeMap;
+use std::io::Write;
+use std::panic::{catch_unwind, AssertUnwindSafe};
 
-pub fn run(_kv: &Args) -> i32 {
-    eprintln!("c11: not implemented");
-    2
+#[derive(Clone, Copy, PartialEq, Debug)]
+pub enum Out {
+    Val,
+    Err,
+    Panic,
+}
+
+pub struct Rec {
+    pub n: u64,
+    pub kinds: BTreeMap<String, u64>,
+    pub panics: Vec<String>,
+    pub log: std::fs::File,
+    pub samples: Vec<String>,
+}
+
+impl Rec {
+    pub fn case<F: FnOnce() -> bool>(&mut self, entry: &str, kind: &str, input: &[u8], f: F) -> Out {
+        let r = catch_unwind(AssertUnwindSafe(f));
+        let out = match r {
+            Ok(true) => Out::Val,
+            Ok(false) => Out::Err,
+            Err(_) => Out::Panic,
+        };
+        self.n += 1;
+        *self.kinds.entry(format!("{entry}/{kind}/{:?}", out)).or_default() += 1;
+        let shown = if input.len() > 96 { &input[..96] } else { input };
+        let _ = writeln!(self.log, "{entry} {kind} {:?} len={} {}", out, input.len(), hex(shown));
+        if out == Out::Panic && self.panics.len() < 40 {
+            self.panics.push(format!("entry={entry} kind={kind} len={} input={}", input.len(), hex(input)));
+        }
+        if self.samples.len() < 6 && self.n % 997 == 1 {
+            self.samples.push(format!("{entry} {kind} {:?} len={} {}", out, input.len(), hex(shown)));
+        }
+        out
+    }
+}
+
+/// Byte-string generators: uniform, constant, truncated/extended and structured mutations of `valid`.
+pub fn variants(r: &mut ChaCha20Rng, valid: &[u8], n: usize) -> Vec<(String, Vec<u8>)> {
+    let mut v: Vec<(String, Vec<u8>)> = vec![];
+    let len = valid.len();
+    v.push(("valid".into(), valid.to_vec()));
+    v.push(("zeros".into(), vec![0u8; len]));
+    v.push(("ones".into(), vec![0xffu8; len]));
+    let mut u = vec![0u8; len];
+    r.fill_bytes(&mut u);
+    v.push(("uniform".into(), u));
+    for k in 0..n {
+        let mut m = valid.to_vec();
+        match k % 7 {
+            0 if len > 0 => {
+                let i = r.gen_range(0..len);
+                m[i] ^= 1 << r.gen_range(0..8);
+                v.push(("bitflip".into(), m));
+            }
+            1 if len > 0 => {
+                let i = r.gen_range(0..len);
+                m[i] = [0u8, 0xff, 0x80, 0x7f, 1][r.gen_range(0..5)];
+                v.push(("byteset".into(), m));
+            }
+            2 if len > 0 => {
+                m.truncate(r.gen_range(0..len));
+                v.push(("truncated".into(), m));
+            }
+            3 => {
+                let extra = r.gen_range(1..70);
+                let mut e = vec![0u8; extra];
+                r.fill_bytes(&mut e);
+                m.extend_from_slice(&e);
+                v.push(("extended".into(), m));
+            }
+            4 if len >= 8 => {
+                let i = r.gen_range(0..len - 4);
+                let w = r.gen_range(1..5);
+                for j in 0..w {
+                    m[i + j] = 0xff;
+                }
+                v.push(("ff-run".into(), m));
+            }
+            5 if len >= 8 => {
+                let i = r.gen_range(0..len - 4);
+                let w = r.gen_range(1..34).min(len - i);
+                for j in 0..w {
+                    m[i + j] = 0;
+                }
+                v.push(("zero-run".into(), m));
+            }
+            _ if len > 0 => {
+                let i = r.gen_range(0..len);
+                let w = r.gen_range(1..40).min(len - i);
+                r.fill_bytes(&mut m[i..i + w]);
+                v.push(("splice-random".into(), m));
+            }
+            _ => {}
+        }
+    }
+    v
+}
+
+// ------------------------------------------------------------------------------------------ verifiable encryption
+mod venc {
+    use super::*;
+    use sl_verifiable_enc::rsa::RsaPrivateKey;
+    use sl_verifiable_enc::VerifiableRsaEncryption;
+
+    pub fn run(rec: &mut Rec, seed: u64, scale: usize) {
+        use group::Group;
+        let mut r = rng(seed, "c11-venc");
+        let sk = RsaPrivateKey::new(&mut r, 1024).unwrap();
+        let pk = sk.to_public_key();
+        // secp256k1
+        {
+            use k256::{ProjectivePoint, Scalar};
+            use ff::Field;
+            let x = Scalar::random(&mut r);
+            let q = ProjectivePoint::GENERATOR * x;
+            let p = VerifiableRsaEncryption::<ProjectivePoint>::encrypt_with_proof(&x, &pk, b"lbl", None, &mut r).unwrap();
+            let valid = p.to_bytes();
+            let mut inputs = variants(&mut r, &valid, 60 * scale);
+            // structured: the four size words pushed to their boundaries
+            for (off, name) in [(32usize, "sp"), (34, "g_r_size"), (36, "enc_size"), (38, "scalar_size")] {
+                for val in [0u16, 1, 127, 128, 129, 255, 256, 257, 258, 0x7fff, 0x8000, 0xffff] {
+                    let mut m = valid.clone();
+                    m[off..off + 2].copy_from_slice(&val.to_be_bytes());
+                    inputs.push((format!("hdr-{name}"), m));
+                }
+            }
+            // a well-formed proof announcing 257 / 300 slots (repeat slot 0 and scalar 0): must be rejected or fail, never panic
+            for slots in [257usize, 300, 512] {
+                let enc = 128usize;
+                let slot = 33 + 2 * enc;
+                let mut m = valid[..32].to_vec();
+                m.extend_from_slice(&(slots as u16).to_be_bytes());
+                m.extend_from_slice(&valid[34..40]);
+                for i in 0..slots {
+                    let j = i % 128;
+                    m.extend_from_slice(&valid[40 + j * slot..40 + (j + 1) * slot]);
+                }
+                for i in 0..slots {
+                    let j = i % 128;
+                    let o = 40 + 128 * slot + 32 * j;
+                    m.extend_from_slice(&valid[o..o + 32]);
+                }
+                inputs.push(("many-slots".into(), m));
+            }
+            for l in [0usize, 1, 39, 40, 41, 72] {
+                inputs.push(("short".into(), vec![0x01u8; l]));
+            }
+            // self-consistent proofs with 257 / 300 slots: the prover knows x and its nonces, repeats slot 0 beyond
+            // slot 255 and re-derives every opening from the recomputed challenge, so the first 256 slots verify
+            {
+                use ff::PrimeField;
+                use group::GroupEncoding;
+                use rand::Rng;
+                use sha2::{Digest, Sha256};
+                let mut r1 = rng(seed, "c11-venc-257");
+                let mut r2 = rng(seed, "c11-venc-257");
+                let p256 = VerifiableRsaEncryption::<ProjectivePoint>::encrypt_with_proof(&x, &pk, b"lbl", Some(256), &mut r1).unwrap();
+                let _seed: [u8; 32] = r2.gen();
+                let rs: Vec<Scalar> = (0..256).map(|_| Scalar::random(&mut r2)).collect();
+                let v = p256.to_bytes();
+                let enc = 128usize;
+                let slot = 33 + 2 * enc;
+                for slots in [257usize, 300] {
+                    let mut m = v[..32].to_vec();
+                    m.extend_from_slice(&(slots as u16).to_be_bytes());
+                    m.extend_from_slice(&v[34..40]);
+                    for i in 0..slots {
+                        let j = if i < 256 { i } else { 0 };
+                        m.extend_from_slice(&v[40 + j * slot..40 + (j + 1) * slot]);
+                    }
+                    let mut h = Sha256::new();
+                    h.update(b"Verified-RSA-encryption");
+                    h.update(q.to_bytes());
+                    h.update(&m[40..]);
+                    h.update(b"lbl");
+                    let ch: [u8; 32] = h.finalize().into();
+                    for i in 0..slots {
+                        let j = if i < 256 { i } else { 0 };
+                        let bit = if i < 256 { (ch[i >> 3] >> (i & 7)) & 1 } else { 0 };
+                        let sc = if bit == 1 { x + rs[j] } else { rs[j] };
+                        m.extend_from_slice(sc.to_repr().as_ref());
+                    }
+                    inputs.push(("consistent-many-slots".into(), m));
+                }
+            }
+            for (kind, bytes) in inputs {
+                rec.case("venc.k256.from_bytes+verify+decrypt", &kind, &bytes, || {
+                    match VerifiableRsaEncryption::<ProjectivePoint>::from_bytes(&bytes) {
+                        Ok(p) => {
+                            let _ = p.verify(&q, &pk, b"lbl");
+                            let _ = p.decrypt(&q, &sk, b"lbl");
+                            let _ = p.to_bytes();
+                            true
+                        }
+                        Err(_) => false,
+                    }
+                });
+            }
+        }
+        // edwards25519
+        {
+            use curve25519_dalek::{EdwardsPoint, Scalar};
+            use ff::Field;
+            let x = Scalar::random(&mut r);
+            let q = EdwardsPoint::generator() * x;
+            let p = VerifiableRsaEncryption::<EdwardsPoint>::encrypt_with_proof(&x, &pk, b"lbl", None, &mut r).unwrap();
+            let valid = p.to_bytes();
+            let mut inputs = variants(&mut r, &valid, 30 * scale);
+            for val in [0u16, 127, 256, 257, 0xffff] {
+                let mut m = valid.clone();
+                m[32..34].copy_from_slice(&val.to_be_bytes());
+                inputs.push(("hdr-sp".into(), m));
+            }
+            for (kind, bytes) in inputs {
+                rec.case("venc.ed25519.from_bytes+verify+decrypt", &kind, &bytes, || {
+                    match VerifiableRsaEncryption::<EdwardsPoint>::from_bytes(&bytes) {
+                        Ok(p) => {
+                            let _ = p.verify(&q, &pk, b"lbl");
+                            let _ = p.decrypt(&q, &sk, b"lbl");
+                            let _ = p.to_bytes();
+                            true
+                        }
+                        Err(_) => false,
+                    }
+                });
+            }
+        }
+    }
+}
+
+// ------------------------------------------------------------------------------------------ Paillier
+mod paillier {
+    use super::*;
+    use crypto_bigint::{U1024, U2048, U4096};
+    use sl_paillier::{RawCiphertext, PK2048, SK2048};
+
+    const P: &str = "95779f0de6b61f3db4c53b1b32aa29e2efb52ebedab7968c37cb10917767547963a121d454c8024dc56f22c523da2dff553ad8a1621ad8f0c093ad09561165fce74fdf977ab1b5f57b4cdcce58f449bcce50cd80359ed0ec4083000c091fbb237e52b8237438ea82932ad0ed7d58fae54ea300461755a0dabc41b5e46af4cee1";
+    const Q: &str = "a80137484b2e0082dbcc520642ea0fcff5652a2367084c052c340b15f0c3ecfeb334024e28e5a982c8971d06f332fc2e91ca985ee37a8e51daa2bae16841b75617a43b52fecea902c5858276ef3ab5282a0635ef34579d5ea2de61bd56f4d7ec26afbcb8ae127c4bc5c0a5799a48d41565a7656fffa056ac3b73ccb3fd0098d1";
+
+    fn exercise_pk(pk: &PK2048) {
+        let m = pk.message(&[5u8]).unwrap_or_default();
+        let r = U2048::from_u64(7);
+        let c = pk.encrypt_with_r(&m, &r);
+        let c2 = pk.add(&c, &c);
+        let _ = pk.mul(&c2, &m);
+        let _ = pk.mul_vartime(&c2, &m);
+        let _ = pk.message(&[0xffu8; 300]);
+    }
+
+    pub fn run(rec: &mut Rec, seed: u64, scale: usize) {
+        let mut r = rng(seed, "c11-paillier");
+        let p = U1024::from_be_hex(P);
+        let q = U1024::from_be_hex(Q);
+        let sk = SK2048::from_pq(&p, &q);
+        let pk = sk.public_key();
+        let sk_bytes = bincode::serialize(&sk).unwrap();
+        let pk_bytes = bincode::serialize(&pk).unwrap();
+        let m = pk.message(&[9u8, 1]).unwrap();
+        let c = pk.encrypt_with_r(&m, &U2048::from_u64(11));
+        let c_bytes = bincode::serialize(&c).unwrap();
+
+        // public keys
+        let mut inputs = variants(&mut r, &pk_bytes, 24 * scale);
+        for (name, n) in [("N=0", U2048::ZERO), ("N=1", U2048::ONE), ("N=10", U2048::from_u64(10)), ("N=15", U2048::from_u64(15)),
+            ("N=2^2047", U2048::ONE.shl_vartime(2047)), ("N=max", U2048::MAX), ("N=max-1", U2048::MAX.wrapping_sub(&U2048::ONE))] {
+            inputs.push((name.into(), bincode::serialize(&n).unwrap()));
+        }
+        for (kind, bytes) in inputs {
+            rec.case("paillier.PK2048.deserialize+ops", &kind, &bytes, || match bincode::deserialize::<PK2048>(&bytes) {
+                Ok(pk) => {
+                    exercise_pk(&pk);
+                    true
+                }
+                Err(_) => false,
+            });
+        }
+        // secret keys (from_pq on 1024-bit operands is slow: fewer cases)
+        let mut inputs = variants(&mut r, &sk_bytes, 6 * scale);
+        for (name, a, b) in [("pq=(4,6)", 4u64, 6u64), ("pq=(0,0)", 0, 0), ("pq=(1,1)", 1, 1), ("pq=(3,3)", 3, 3), ("pq=(3,0)", 3, 0),
+            ("pq=(1,3)", 1, 3), ("pq=(9,15)", 9, 15), ("pq=(5,7)", 5, 7), ("pq=(7,5)", 7, 5)] {
+            inputs.push((name.into(), bincode::serialize(&(U1024::from_u64(a), U1024::from_u64(b))).unwrap()));
+        }
+        inputs.push(("pq=(max,max)".into(), bincode::serialize(&(U1024::MAX, U1024::MAX)).unwrap()));
+        inputs.push(("pq=(max,3)".into(), bincode::serialize(&(U1024::MAX, U1024::from_u64(3))).unwrap()));
+        for (kind, bytes) in inputs {
+            rec.case("paillier.SK2048.deserialize+ops", &kind, &bytes, || match bincode::deserialize::<SK2048>(&bytes) {
+                Ok(sk) => {
+                    let pk = sk.public_key();
+                    exercise_pk(&pk);
+                    let m = pk.message(&[5u8]).unwrap_or_default();
+                    let c = pk.encrypt_with_r(&m, &U2048::from_u64(7));
+                    let _ = sk.decrypt(&c);
+                    let _ = sk.decrypt_fast(&c);
+                    let ip = sk.extract_n_root_init_params();
+                    let _ = sk.extract_n_root(&U2048::from_u64(2), &ip);
+                    true
+                }
+                Err(_) => false,
+            });
+        }
+        // ciphertexts: arbitrary 4096-bit values through the private-key operations of a valid key
+        let mut inputs = variants(&mut r, &c_bytes, 10 * scale);
+        inputs.push(("c=0".into(), bincode::serialize(&U4096::ZERO).unwrap()));
+        inputs.push(("c=max".into(), bincode::serialize(&U4096::MAX).unwrap()));
+        for (kind, bytes) in inputs {
+            rec.case("paillier.RawCiphertext.deserialize+decrypt", &kind, &bytes, || {
+                match bincode::deserialize::<RawCiphertext<{ U4096::LIMBS }>>(&bytes) {
+                    Ok(c) => {
+                        let _ = sk.decrypt(&c);
+                        let _ = sk.decrypt_fast(&c);
+                        let _ = pk.add(&c, &c);
+                        let _ = pk.mul(&c, &m);
+                        true
+                    }
+                    Err(_) => false,
+                }
+            });
+        }
+    }
+}
+
+// ------------------------------------------------------------------------------------------ OT stack
+mod ot {
+    use super::*;
+    use k256::Scalar;
+    use sl_oblivious::endemic_ot::*;
+    use sl_oblivious::soft_spoken::*;
+
+    fn pod<T: bytemuck::AnyBitPattern>(bytes: &[u8]) -> Option<Box<T>> {
+        if bytes.len() != std::mem::size_of::<T>() {
+            return None;
+        }
+        let mut b = bytemuck::allocation::zeroed_box::<T>();
+        // all message types are byte arrays (alignment 1)
+        let dst = unsafe { std::slice::from_raw_parts_mut(&mut *b as *mut T as *mut u8, bytes.len()) };
+        dst.copy_from_slice(bytes);
+        Some(b)
+    }
+
+    pub fn run(rec: &mut Rec, seed: u64, scale: usize) {
+        let mut r = rng(seed, "c11-ot");
+        let sid = [7u8; 32];
+        // ---- Endemic
+        let mut msg1 = EndemicOTMsg1::default();
+        let receiver = EndemicOTReceiver::new(&sid, &mut msg1, &mut r);
+        let msg1_bytes = bytemuck::bytes_of(&msg1).to_vec();
+        let mut msg2 = EndemicOTMsg2::default();
+        let _ = EndemicOTSender::process(&sid, &msg1, &mut msg2, &mut r).unwrap();
+        let msg2_bytes = bytemuck::bytes_of(&msg2).to_vec();
+        drop(receiver);
+        for (kind, bytes) in variants(&mut r, &msg1_bytes, 10 * scale) {
+            let mut rr = rng(seed, "c11-ot-s");
+            rec.case("endemic.sender.process", &kind, &bytes, || match pod::<EndemicOTMsg1>(&bytes) {
+                Some(m) => {
+                    let mut out = EndemicOTMsg2::default();
+                    EndemicOTSender::process(&sid, &m, &mut out, &mut rr).is_ok()
+                }
+                None => false,
+            });
+        }
+        for (kind, bytes) in variants(&mut r, &msg2_bytes, 10 * scale) {
+            let mut rr = rng(seed, "c11-ot-r");
+            rec.case("endemic.receiver.process", &kind, &bytes, || match pod::<EndemicOTMsg2>(&bytes) {
+                Some(m) => {
+                    let mut m1 = EndemicOTMsg1::default();
+                    let recv = EndemicOTReceiver::new(&sid, &mut m1, &mut rr);
+                    recv.process(&m).is_ok()
+                }
+                None => false,
+            });
+        }
+        // ---- PPRF: eval on arbitrary message bytes with consistent / arbitrary base-OT outputs
+        let mut keys = [[[0u8; 32]; 2]; 256];
+        for k in keys.iter_mut() {
+            r.fill_bytes(&mut k[0]);
+            r.fill_bytes(&mut k[1]);
+        }
+        let so = sl_oblivious::verif_hooks::sender_output_from_keys(&keys);
+        let mut choice = [0u8; 32];
+        r.fill_bytes(&mut choice);
+        let rkeys: [[u8; 32]; 256] = std::array::from_fn(|i| keys[i][((choice[i / 8] >> (i % 8)) & 1) as usize]);
+        let ro = ReceiverOutput::new(choice, rkeys);
+        let mut sseed = SenderOTSeed::default();
+        let mut pprf = PPRFOutput::default();
+        build_pprf(&sid, &so, &mut sseed, &mut pprf);
+        let pprf_bytes = bytemuck::bytes_of(&pprf).to_vec();
+        for (kind, bytes) in variants(&mut r, &pprf_bytes, 30 * scale) {
+            rec.case("pprf.eval_pprf", &kind, &bytes, || match pod::<PPRFOutput>(&bytes) {
+                Some(m) => {
+                    let mut rs = ReceiverOTSeed::default();
+                    eval_pprf(&sid, &ro, &m, &mut rs).is_ok()
+                }
+                None => false,
+            });
+        }
+        let mut rseed = ReceiverOTSeed::default();
+        eval_pprf(&sid, &ro, &pprf, &mut rseed).unwrap();
+        // ---- SoftSpoken sender on arbitrary first-round messages
+        let mut round1 = Round1Output::default();
+        let (rvr, _b) = sl_oblivious::rvole::RVOLEReceiver::new(sid, &sseed, &mut round1, &mut r);
+        let r1_bytes = bytemuck::bytes_of(&round1).to_vec();
+        for (kind, bytes) in variants(&mut r, &r1_bytes, 30 * scale) {
+            rec.case("softspoken.sender.process", &kind, &bytes, || match pod::<Round1Output>(&bytes) {
+                Some(m) => SoftSpokenOTSender::process(&sid, &rseed, &m).is_ok(),
+                None => false,
+            });
+        }
+        // seeds with out-of-range punctured indices (a stored ReceiverOTSeed is local state, but must not panic either)
+        for idx in [16u8, 17, 128, 255] {
+            let mut bad = ReceiverOTSeed::default();
+            bad.otp_dec_keys = rseed.otp_dec_keys;
+            bad.random_choices = rseed.random_choices;
+            bad.random_choices[3] = idx;
+            rec.case("softspoken.sender.process", "seed-index-out-of-range", &[idx], || {
+                SoftSpokenOTSender::process(&sid, &bad, &round1).is_ok()
+            });
+        }
+        // ---- RVOLE (OT-extension variant)
+        let a = [Scalar::from(3u64), Scalar::from(5u64)];
+        for (kind, bytes) in variants(&mut r, &r1_bytes, 6 * scale) {
+            let mut rr = rng(seed, "c11-rvole-s");
+            rec.case("rvole.sender.process", &kind, &bytes, || match pod::<Round1Output>(&bytes) {
+                Some(m) => {
+                    let mut out = sl_oblivious::rvole::RVOLEOutput::default();
+                    sl_oblivious::rvole::RVOLESender::process(&sid, &rseed, &a, &m, &mut out, &mut rr).is_ok()
+                }
+                None => false,
+            });
+        }
+        let mut out2 = sl_oblivious::rvole::RVOLEOutput::default();
+        let _ = sl_oblivious::rvole::RVOLESender::process(&sid, &rseed, &a, &round1, &mut out2, &mut r).unwrap();
+        let out2_bytes = bytemuck::bytes_of(&out2).to_vec();
+        for (kind, bytes) in variants(&mut r, &out2_bytes, 30 * scale) {
+            rec.case("rvole.receiver.process", &kind, &bytes, || match pod::<sl_oblivious::rvole::RVOLEOutput>(&bytes) {
+                Some(m) => rvr.process(&m).is_ok(),
+                None => false,
+            });
+        }
+        // ---- RVOLE (base-OT variant)
+        {
+            use sl_oblivious::rvole_ot_variant as v;
+            let mut m1 = v::RVOLEMsg1::default();
+            let mut r0 = rng(seed, "c11-rvole-ot-r");
+            let (_st, _ra, _rb, _b) = v::RVOLEReceiver::new(sid, &mut m1, &mut r0);
+            let m1_bytes = bytemuck::bytes_of(&m1).to_vec();
+            for (kind, bytes) in variants(&mut r, &m1_bytes, 3 * scale) {
+                let mut rr = rng(seed, "c11-rvole-ot-s");
+                rec.case("rvole_ot.sender.process", &kind, &bytes, || match pod::<v::RVOLEMsg1>(&bytes) {
+                    Some(m) => {
+                        let mut out = v::RVOLEMsg2::default();
+                        v::RVOLESender::process(&sid, &a, &m, &mut out, &mut rr).is_ok()
+                    }
+                    None => false,
+                });
+            }
+            let mut m2 = v::RVOLEMsg2::default();
+            let _ = v::RVOLESender::process(&sid, &a, &m1, &mut m2, &mut r).unwrap();
+            let m2_bytes = bytemuck::bytes_of(&m2).to_vec();
+            for (kind, bytes) in variants(&mut r, &m2_bytes, 3 * scale) {
+                let mut rr = rng(seed, "c11-rvole-ot-r");
+                rec.case("rvole_ot.receiver.process", &kind, &bytes, || match pod::<v::RVOLEMsg2>(&bytes) {
+                    Some(m) => {
+                        let mut mm = v::RVOLEMsg1::default();
+                        let (st, ra, rb, _b) = v::RVOLEReceiver::new(sid, &mut mm, &mut rr);
+                        st.process(&m, ra, rb).is_ok()
+                    }
+                    None => false,
+                });
+            }
+        }
+    }
+}
+
+// ------------------------------------------------------------------------------------------ relay frames, headers
+mod relay {
+    use super::*;
+    use futures_util::{SinkExt, StreamExt};
+    use sl_mpc_mate::coord::SimpleMessageRelay;
+    use sl_mpc_mate::message::*;
+
+    pub fn run(rec: &mut Rec, seed: u64, scale: usize) {
+        let mut r = rng(seed, "c11-relay");
+        let id = MsgId::from([9u8; 32]);
+        let valid = allocate_message(&id, 10, 0, &[1, 2, 3, 4, 5]);
+        let mut frames = variants(&mut r, &valid, 40 * scale);
+        for l in 0..=40usize {
+            frames.push(("len".into(), vec![0xabu8; l]));
+        }
+        frames.push(("ask".into(), AskMsg::allocate(&id, 5)));
+        frames.push(("ask-ttl-max".into(), AskMsg::allocate(&id, u32::MAX)));
+        for (kind, bytes) in &frames {
+            rec.case("message.MsgHdr/MsgId.try_from", kind, bytes, || {
+                let h = <&MsgHdr>::try_from(&bytes[..]);
+                let i = MsgId::try_from(&bytes[..]);
+                if let Ok(h) = h {
+                    let _ = (h.id(), h.ttl(), h.flags());
+                }
+                let _ = MsgHdr::try_from(&bytes[..]);
+                i.is_ok()
+            });
+        }
+        let rt = tokio::runtime::Builder::new_current_thread().enable_all().build().unwrap();
+        // every frame through both send paths of ONE relay; afterwards the lock must still be usable
+        let relay = SimpleMessageRelay::new();
+        for (kind, bytes) in &frames {
+            let out = rec.case("relay.SimpleMessageRelay.send", kind, bytes, || {
+                rt.block_on(async {
+                    relay.send(bytes.clone());
+                });
+                true
+            });
+            let _ = out;
+            rec.case("relay.MessageRelay.start_send", kind, bytes, || {
+                rt.block_on(async {
+                    let mut c = relay.connect();
+                    c.send(bytes.clone()).await.is_ok()
+                })
+            });
+            rec.case("relay.lock-usable-after", kind, bytes, || {
+                let _ = relay.messages();
+                let _c = relay.connect();
+                true
+            });
+        }
+        // buffered wrapper fed arbitrary frames by the inner relay
+        for (kind, bytes) in frames.iter().take(60 * scale) {
+            rec.case("relay.BufferedMsgRelay.recv", kind, bytes, || {
+                rt.block_on(async {
+                    let relay = SimpleMessageRelay::new();
+                    let mut prod = relay.connect();
+                    let cons = relay.connect();
+                    let mut buffered = sl_mpc_mate::coord::BufferedMsgRelay::new(cons);
+                    // the frame's own id (if it has one) is what the consumer asks for
+                    let want = MsgId::try_from(&bytes[..]).unwrap_or(id);
+                    let _ = prod.send(bytes.clone()).await;
+                    let _ = prod.send(valid.clone()).await;
+                    let got = tokio::time::timeout(std::time::Duration::from_millis(20), buffered.recv(&want, 1)).await;
+                    let _ = tokio::time::timeout(std::time::Duration::from_millis(5), buffered.next()).await;
+                    got.is_ok()
+                })
+            });
+        }
+    }
+}
+
+// ------------------------------------------------------------------------------------------ BIP32
+mod bip32 {
+    use super::*;
+    use k256::ProjectivePoint;
+    use sl_mpc_mate::bip32::*;
+    use std::str::FromStr;
+
+    pub fn run(rec: &mut Rec, seed: u64, scale: usize) {
+        let mut r = rng(seed, "c11-bip32");
+        let mut roots: Vec<(String, ProjectivePoint)> = vec![
+            ("identity".into(), ProjectivePoint::IDENTITY),
+            ("generator".into(), ProjectivePoint::GENERATOR),
+            ("-generator".into(), -ProjectivePoint::GENERATOR),
+        ];
+        for _ in 0..(4 * scale) {
+            use elliptic_curve::Field;
+            roots.push(("random".into(), ProjectivePoint::GENERATOR * k256::Scalar::random(&mut r)));
+        }
+        let mut paths: Vec<String> = vec!["m".into(), "m/0".into(), "m/1/2/3".into(), "m/2147483647".into(), "m/0'".into(),
+            "m/1/2'/3".into(), "m/44'/0'/0'/0/0".into(), "m/4294967295".into(), "".into(), "m/".into(), "m//1".into(), "x/1".into()];
+        for depth in [254usize, 255, 256, 257, 300] {
+            paths.push(format!("m{}", "/1".repeat(depth)));
+        }
+        for _ in 0..(10 * scale) {
+            let d = r.gen_range(0..12);
+            let mut s = String::from("m");
+            for _ in 0..d {
+                s.push_str(&format!("/{}", r.gen_range(0u32..0x8000_0000)));
+            }
+            paths.push(s);
+        }
+        for (rk, root) in &roots {
+            for p in &paths {
+                for cc in [[0u8; 32], [0xffu8; 32], [0x5au8; 32]] {
+                    let input = format!("{rk}|{p}|{:02x}", cc[0]);
+                    rec.case("bip32.derive_xpub+to_string", rk, input.as_bytes(), || match derivation_path::DerivationPath::from_str(p) {
+                        Ok(path) => match derive_xpub(Prefix::XPub, root, cc, path) {
+                            Ok(x) => {
+                                let _ = x.to_string(true);
+                                let _ = x.to_string(false);
+                                true
+                            }
+                            Err(_) => false,
+                        },
+                        Err(_) => false,
+                    });
+                }
+            }
+        }
+    }
+}
+
+pub fn run(kv: &Args) -> i32 {
+    let seed = kv.u64("seed", 1);
+    let out = kv.str("out", "/verif/build/run/C11");
+    std::fs::create_dir_all(&out).unwrap();
+    let scale = if kv.thorough() { 12 } else { 1 };
+    let only = kv.str("only", "");
+    let prev = std::panic::take_hook();
+    std::panic::set_hook(Box::new(|_| {}));
+    let mut rec = Rec { n: 0, kinds: BTreeMap::new(), panics: vec![], log: std::fs::File::create(format!("{out}/cases.txt")).unwrap(), samples: vec![] };
+    let want = |name: &str| only.is_empty() || only == name;
+    if want("venc") { venc::run(&mut rec, seed, scale); }
+    if want("paillier") { paillier::run(&mut rec, seed, scale); }
+    if want("ot") { ot::run(&mut rec, seed, scale); }
+    if want("relay") { relay::run(&mut rec, seed, scale); }
+    if want("bip32") { bip32::run(&mut rec, seed, scale); }
+    std::panic::set_hook(prev);
+    let mut f = std::fs::File::create(format!("{out}/result.txt")).unwrap();
+    writeln!(f, "evaluations {}", rec.n).unwrap();
+    let nontrivial: u64 = rec.kinds.iter().filter(|(k, _)| !k.contains("/valid/")).map(|(_, v)| *v).sum();
+    writeln!(f, "mutations {}", nontrivial).unwrap();
+    writeln!(f, "oracle_queries 0").unwrap();
+    // per entry point x outcome summary
+    let mut per: BTreeMap<String, u64> = BTreeMap::new();
+    for (k, v) in &rec.kinds {
+        let parts: Vec<&str> = k.split('/').collect();
+        *per.entry(format!("{}:{}", parts[0], parts[parts.len() - 1])).or_default() += v;
+    }
+    for (k, v) in &per {
+        writeln!(f, "kind {} {}", k.replace(' ', "_"), v).unwrap();
+    }
+    for s in &rec.samples {
+        writeln!(f, "SAMPLE {s}").unwrap();
+    }
+    for p in &rec.panics {
+        writeln!(f, "ORACLE panic: {p}").unwrap();
+    }
+    0
 }
